@@ -7,8 +7,8 @@ CHECKS = {
     "C05": {
         "level": "exploration",
         "tests": [
-            {"name": "TestC05Mutations", "checks": [40, 400], "shards": [4, 16], "floor": 0.6},
-            {"name": "TestC05Soup", "checks": [4000, 30000], "shards": [2, 16], "floor": 0.6},
+            {"name": "TestC05Mutations", "checks": [40, 1500], "shards": [4, 16], "floor": 0.6},
+            {"name": "TestC05Soup", "checks": [4000, 200000], "shards": [2, 16], "floor": 0.6},
             {"name": "TestC05Shapes", "enum": True},
             {"name": "TestC05Blobs", "enum": True},
             {"name": "TestC05AttrFlood", "enum": True},
@@ -21,7 +21,7 @@ CHECKS = {
     "C01": {
         "level": "exploration",
         "tests": [
-            {"name": "TestC01History", "checks": [150, 1500], "shards": [4, 16], "floor": 0.8, "gomaxprocs": 1},
+            {"name": "TestC01History", "checks": [150, 3000], "shards": [4, 16], "floor": 0.8, "gomaxprocs": 1},
             K,
         ],
         "assumptions": ["object reuse in sync.Pool is per-P and probabilistic: histories run on a single P with GC actions to maximise reuse; recycling is observable only through its effect on results",
@@ -30,7 +30,7 @@ CHECKS = {
     "C02": {
         "level": "exploration",
         "tests": [
-            {"name": "TestC02Concurrent", "checks": [40, 300], "shards": [2, 16], "race": True, "floor": 0.9, "shrinktime": "30s"},
+            {"name": "TestC02Concurrent", "checks": [40, 600], "shards": [2, 16], "race": True, "floor": 0.9, "shrinktime": "30s"},
             K,
         ],
         "assumptions": ["schedules are explored by repetition, goroutine counts, GOMAXPROCS and yields, not enumerated; the race detector flags unsynchronised conflicting accesses without needing the bad timing",
@@ -39,8 +39,8 @@ CHECKS = {
     "C18": {
         "level": "exploration",
         "tests": [
-            {"name": "TestC18Immutable", "checks": [3000, 15000], "shards": [2, 16], "floor": 0.85},
-            {"name": "TestC18Race", "checks": [150, 1500], "shards": [1, 8], "race": True, "floor": 0.85},
+            {"name": "TestC18Immutable", "checks": [3000, 60000], "shards": [2, 16], "floor": 0.85},
+            {"name": "TestC18Race", "checks": [150, 3000], "shards": [1, 8], "race": True, "floor": 0.85},
             K,
         ],
         "assumptions": ["the Go race detector reports a write to shared caller data when it overlaps a read by another render (20 renders from 4 goroutines per case)"],
@@ -48,9 +48,9 @@ CHECKS = {
     "C15": {
         "level": "exploration",
         "tests": [
-            {"name": "TestC15Cache", "checks": [3000, 10000], "shards": [2, 16], "floor": 0.8},
+            {"name": "TestC15Cache", "checks": [3000, 80000], "shards": [2, 16], "floor": 0.8},
             {"name": "TestC15Short", "enum": True},
-            {"name": "TestC15Files", "checks": [400, 3000], "shards": [1, 8], "floor": 0.5},
+            {"name": "TestC15Files", "checks": [400, 20000], "shards": [1, 8], "floor": 0.5},
             K,
         ],
         "assumptions": ["registrations while the cache is off and reads of registered names while the cache is off are outside the domain (the statement's clauses conflict there)",
@@ -59,9 +59,9 @@ CHECKS = {
     "C16": {
         "level": "exploration",
         "tests": [
-            {"name": "TestC16RoundTrip", "checks": [1500, 8000], "shards": [1, 8], "floor": 0.5},
-            {"name": "TestC16Render", "checks": [1500, 8000], "shards": [2, 16], "floor": 0.7},
-            {"name": "TestC16Files", "checks": [300, 2000], "shards": [1, 8], "floor": 0.5},
+            {"name": "TestC16RoundTrip", "checks": [1500, 30000], "shards": [1, 8], "floor": 0.5},
+            {"name": "TestC16Render", "checks": [1500, 30000], "shards": [2, 16], "floor": 0.7},
+            {"name": "TestC16Files", "checks": [300, 6000], "shards": [1, 8], "floor": 0.5},
             {"name": "FuzzCompiledRoundTrip", "fuzz": True, "fuzztime": [0, 60]},
             K,
         ],
@@ -70,7 +70,7 @@ CHECKS = {
     "C20": {
         "level": "exploration",
         "tests": [
-            {"name": "TestC20Attr", "checks": [150, 250], "shards": [2, 16], "floor": 0.8},
+            {"name": "TestC20Attr", "checks": [150, 300], "shards": [2, 16], "floor": 0.8},
             {"name": "TestC20Family", "enum": True},
             {"name": "TestC20Concurrent", "enum": True},
             K,
@@ -81,8 +81,8 @@ CHECKS = {
     "C19": {
         "level": "exploration",
         "tests": [
-            {"name": "TestC19Laws", "checks": [3000, 20000], "shards": [2, 16], "floor": 0.6},
-            {"name": "TestC19Numbers", "checks": [3000, 20000], "shards": [1, 8], "floor": 0.6},
+            {"name": "TestC19Laws", "checks": [3000, 150000], "shards": [2, 16], "floor": 0.6},
+            {"name": "TestC19Numbers", "checks": [3000, 150000], "shards": [1, 8], "floor": 0.6},
             {"name": "TestC19SliceGrid", "enum": True},
             {"name": "TestC19Default", "enum": True},
             K,
@@ -93,7 +93,7 @@ CHECKS = {
     "C03": {
         "level": "exploration",
         "tests": [
-            {"name": "TestC03Determinism", "checks": [1500, 8000], "shards": [2, 16], "floor": 0.85},
+            {"name": "TestC03Determinism", "checks": [1500, 30000], "shards": [2, 16], "floor": 0.85},
             {"name": "TestC03Dates", "enum": True},
             K,
         ],
@@ -102,7 +102,7 @@ CHECKS = {
     "C06": {
         "level": "exploration",
         "tests": [
-            {"name": "TestC06Sandbox", "checks": [2500, 10000], "shards": [2, 16], "floor": 0.6},
+            {"name": "TestC06Sandbox", "checks": [2500, 100000], "shards": [2, 16], "floor": 0.6},
             {"name": "TestC06Matrix", "enum": True},
             K,
         ],
@@ -112,10 +112,10 @@ CHECKS = {
     "C17": {
         "level": "fault_enumeration",
         "tests": [
-            {"name": "TestC17Faults", "checks": [600, 3000], "shards": [4, 16], "floor": 0.6},
-            {"name": "TestC17Names", "checks": [2000, 10000], "shards": [2, 16]},
+            {"name": "TestC17Faults", "checks": [600, 15000], "shards": [4, 16], "floor": 0.6},
+            {"name": "TestC17Names", "checks": [2000, 50000], "shards": [2, 16]},
             {"name": "TestC17Overrides", "enum": True},
-            {"name": "TestC17Loaders", "checks": [1000, 5000], "shards": [1, 8]},
+            {"name": "TestC17Loaders", "checks": [1000, 30000], "shards": [1, 8]},
             K,
         ],
         "assumptions": ["faults are injected through user callbacks (function, filter, test) and template lookups; undefined variables/attributes and `ignore missing` on a missing template are documented tolerances, not faults"],
@@ -123,7 +123,7 @@ CHECKS = {
     "C12": {
         "level": "exploration",
         "tests": [
-            {"name": "TestC12Macros", "checks": [2000, 10000], "shards": [2, 16], "floor": 0.8},
+            {"name": "TestC12Macros", "checks": [2000, 50000], "shards": [2, 16], "floor": 0.8},
             {"name": "TestC12Arity", "enum": True},
             K,
         ],
@@ -132,7 +132,7 @@ CHECKS = {
     "C11": {
         "level": "exploration",
         "tests": [
-            {"name": "TestC11Include", "checks": [3000, 15000], "shards": [2, 16], "floor": 0.85},
+            {"name": "TestC11Include", "checks": [3000, 100000], "shards": [2, 16], "floor": 0.85},
             {"name": "TestC11Options", "enum": True},
             K,
         ],
@@ -142,7 +142,7 @@ CHECKS = {
     "C10": {
         "level": "exploration",
         "tests": [
-            {"name": "TestC10Inheritance", "checks": [3000, 15000], "shards": [2, 16], "floor": 0.75},
+            {"name": "TestC10Inheritance", "checks": [3000, 100000], "shards": [2, 16], "floor": 0.75},
             {"name": "TestC10Grid", "enum": True},
             K,
         ],
@@ -151,7 +151,7 @@ CHECKS = {
     "C14": {
         "level": "exploration",
         "tests": [
-            {"name": "TestC14Padding", "checks": [500, 3000], "shards": [2, 16], "floor": 0.5},
+            {"name": "TestC14Padding", "checks": [500, 20000], "shards": [2, 16], "floor": 0.5},
             {"name": "TestC14Thresholds", "enum": True},
             K,
         ],
@@ -160,7 +160,7 @@ CHECKS = {
     "C13": {
         "level": "exploration",
         "tests": [
-            {"name": "TestC13Dashes", "checks": [3000, 15000], "shards": [2, 16], "floor": 0.8},
+            {"name": "TestC13Dashes", "checks": [3000, 100000], "shards": [2, 16], "floor": 0.8},
             {"name": "TestC13Singles", "enum": True},
             K,
         ],
@@ -169,7 +169,7 @@ CHECKS = {
     "C04": {
         "level": "exploration",
         "tests": [
-            {"name": "TestC04Text", "checks": [4000, 20000], "shards": [2, 16], "floor": 0.7},
+            {"name": "TestC04Text", "checks": [4000, 150000], "shards": [2, 16], "floor": 0.7},
             {"name": "TestC04Bytes", "enum": True},
             {"name": "FuzzLiteralText", "fuzz": True, "fuzztime": [0, 120]},
             K,
@@ -179,7 +179,7 @@ CHECKS = {
     "C09": {
         "level": "exploration",
         "tests": [
-            {"name": "TestC09Flow", "checks": [3000, 15000], "shards": [2, 16], "floor": 0.8},
+            {"name": "TestC09Flow", "checks": [3000, 100000], "shards": [2, 16], "floor": 0.8},
             {"name": "TestC09Truthiness", "enum": True},
             {"name": "TestC09Loops", "enum": True},
             K,
@@ -190,7 +190,7 @@ CHECKS = {
     "C08": {
         "level": "exploration",
         "tests": [
-            {"name": "TestC08Expr", "checks": [4000, 20000], "shards": [2, 16], "floor": 0.8},
+            {"name": "TestC08Expr", "checks": [4000, 150000], "shards": [2, 16], "floor": 0.8},
             {"name": "TestC08Triples", "enum": True},
             {"name": "TestC08Spacing", "enum": True},
             K,
@@ -201,8 +201,8 @@ CHECKS = {
     "C07": {
         "level": "exploration",
         "tests": [
-            {"name": "TestC07Escape", "checks": [3000, 30000], "shards": [1, 16], "floor": 0.75},
-            {"name": "TestC07Routes", "checks": [3000, 30000], "shards": [1, 8], "floor": 0.75},
+            {"name": "TestC07Escape", "checks": [3000, 300000], "shards": [1, 16], "floor": 0.75},
+            {"name": "TestC07Routes", "checks": [3000, 300000], "shards": [1, 8], "floor": 0.75},
             {"name": "TestC07Codepoints", "enum": True},
             K,
         ],
